@@ -76,3 +76,13 @@ Theorem C09_interactive_cache_never_alters_completed_entry :
     FileSpec.outs_kept (CacheExec.cfs s) (CacheExec.cfs s') = true.
 Proof. exact CacheSafe.completed_never_altered. Qed.
 Print Assumptions C09_interactive_cache_never_alters_completed_entry.
+
+(* ---- REFUTED for calls with Future arguments in file mode (finding D27; Proofs/FileRefuteKey.v): two
+   sessions over one directory submit the same calls g(1) and f(g(1)); in the second the consumer is
+   submitted after the producer's future completed.  On the lockstep-tied model - replaying the picks of
+   a run of the real code - the body of f runs once in EACH session and the directory ends up with two
+   complete entries for f(g(1)). ---- *)
+From EL Require Proofs.FileRefuteKey.
+Theorem C09_refuted_future_argument_two_keys : ltac:(let t := type of FileRefuteKey.same_call_two_keys in exact t).
+Proof. exact FileRefuteKey.same_call_two_keys. Qed.
+Print Assumptions C09_refuted_future_argument_two_keys.
